@@ -72,7 +72,8 @@ def _yaml_renderings(d):
     return {"yaml-block": block, "yaml-flow": flow, "yaml-unquoted-status": unq}
 
 
-SHAPES = ["params-all-locations", "multi-2xx", "schema-graph", "two-tags", "default-with-content", "path-forms", "opid-collision-overlapping-tags"]
+SHAPES = ["params-all-locations", "multi-2xx", "schema-graph", "two-tags", "default-with-content", "path-forms", "opid-collision-overlapping-tags",
+          "tag-spellings", "tag-majority-spelling", "tag-spelling-set-1-6", "tag-spelling-set-0-4-7", "tag-spelling-set-2-8-9", "response-kinds"]
 
 
 def _local_docs():
@@ -167,7 +168,7 @@ def bounded_renderings_and_orders(tier, seed):
 
 def _has_collisions(name):
     """the permutation clause is stated for documents without name collisions (suffix assignment is order dependent by design)"""
-    return any(w in name for w in ("collision", "collide", "tag-spelling", "tag-majority", "dup", "clash", "same-name"))
+    return any(w in name for w in ("collision", "collide", "dup", "clash", "same-name"))
 
 
 def _on_cycle(d):
